@@ -28,7 +28,9 @@ impl RngCore for TapeRng {
 }
 impl CryptoRng for TapeRng {}
 
-/// Stand-in for an externally held key (HSM): same serialised length as the direct key.
+/// Stand-in for an externally held key (HSM).  Its serialised form (a key-store handle, say) is
+/// deliberately *not* the length of an in-memory scalar of any supported group (32..66 bytes), so
+/// that length arithmetic which confuses `SecretKey::Len` with `KeGroup::SkLen` is visible.
 pub struct RemoteKey<KG: KeGroup>(PrivateKey<KG>);
 impl<KG: KeGroup> Clone for RemoteKey<KG> {
     fn clone(&self) -> Self {
@@ -39,7 +41,7 @@ impl<KG: KeGroup> Clone for RemoteKey<KG> {
 pub struct RemoteError;
 impl<KG: KeGroup> SecretKey<KG> for RemoteKey<KG> {
     type Error = RemoteError;
-    type Len = KG::SkLen;
+    type Len = generic_array::typenum::U80;
     #[inline(never)]
     fn diffie_hellman(&self, pk: PublicKey<KG>) -> Result<GenericArray<u8, KG::PkLen>, InternalError<Self::Error>> {
         Err(InternalError::Custom(RemoteError))
@@ -50,7 +52,7 @@ impl<KG: KeGroup> SecretKey<KG> for RemoteKey<KG> {
     }
     #[inline(never)]
     fn serialize(&self) -> GenericArray<u8, Self::Len> {
-        self.0.serialize()
+        GenericArray::default()
     }
     #[inline(never)]
     fn deserialize(input: &[u8]) -> Result<Self, InternalError<Self::Error>> {
@@ -130,12 +132,26 @@ macro_rules! suite {
             }
             let _ = <$ke as KeGroup>::random_sk(rng);
             // the parameter structs' defaults (what "absent" means) are part of what the rules read (L-PARAMS)
-            let _ = (
+            let d = (
                 ClientRegistrationFinishParameters::<$name>::default(),
                 ClientLoginFinishParameters::<$name>::default(),
                 ServerLoginStartParameters::default(),
                 Identifiers::default(),
             );
+            // callers may clone anything that is `Clone` before handing it to the library (L-CLONE covers every impl reached)
+            let _ = (d.0.clone(), d.1.clone(), d.2.clone(), d.3.clone());
+            let _ = RegistrationRequest::<$name>::deserialize(b).map(|x| x.clone());
+            let _ = RegistrationResponse::<$name>::deserialize(b).map(|x| x.clone());
+            let _ = RegistrationUpload::<$name>::deserialize(b).map(|x| x.clone());
+            let _ = CredentialRequest::<$name>::deserialize(b).map(|x| x.clone());
+            let _ = CredentialResponse::<$name>::deserialize(b).map(|x| x.clone());
+            let _ = CredentialFinalization::<$name>::deserialize(b).map(|x| x.clone());
+            let _ = ServerRegistration::<$name>::deserialize(b).map(|x| x.clone());
+            let _ = ServerSetup::<$name>::deserialize(b).map(|x| x.clone());
+            let _ = ClientRegistration::<$name>::deserialize(b).map(|x| x.clone());
+            let _ = ClientLogin::<$name>::deserialize(b).map(|x| x.clone());
+            let _ = ServerLogin::<$name>::deserialize(b).map(|x| x.clone());
+            let _ = KeyPair::<$ke>::from_private_key_slice(b).map(|x| x.clone());
         }
         pub fn $remote(b: &[u8], rng: &mut TapeRng) {
             if let Ok(kp) = KeyPair::<$ke, RemoteKey<$ke>>::from_private_key_slice(b) {
